@@ -72,6 +72,13 @@ def _bad_index(h5):
     h5["events/index"][2] = 7
 
 
+def _index_as(fn):
+    def f(h5):
+        n = h5["events/index"].shape[0]
+        h5["events/index"][:] = fn(np.arange(1, n + 1))
+    return f
+
+
 def _extlink(tag):
     def f(h5):
         import pathlib
@@ -132,6 +139,18 @@ def corruption_menu(fl=1):
          "Unknown key 'peter'"),
         ("index not enumerating", "index", _bad_index,
          "index feature is not enumerated correctly"),
+        ("index zero-based", "index", _index_as(lambda a: a - 1),
+         "index feature is not enumerated correctly"),
+        ("index shifted +5", "index", _index_as(lambda a: a + 5),
+         "index feature is not enumerated correctly"),
+        ("index pair swapped", "index",
+         _index_as(lambda a: np.concatenate([a[:1], a[2:3], a[1:2], a[3:]])),
+         "index feature is not enumerated correctly"),
+        ("index reversed", "index", _index_as(lambda a: a[::-1].copy()),
+         "index feature is not enumerated correctly"),
+        ("index with a duplicate", "index",
+         _index_as(lambda a: np.concatenate([a[:-1], a[-2:-1]])),
+         "index feature is not enumerated correctly"),
         ("channel count 2", "fluorescence:channel count",
          _set("fluorescence:channel count", 2),
          "channel count inconsistent"),
@@ -155,6 +174,39 @@ def corruption_menu(fl=1):
         ("flow rate negative", "setup:flow rate",
          _set("setup:flow rate", -0.04),
          "Invalid value for [setup] 'flow rate'"),
+        # further values of the same inconsistencies
+        ("event count -1", "len",
+         _set("experiment:event count", N - 1), "wrong event count"),
+        ("roi size x smaller", "imaging:roi size x",
+         _set("imaging:roi size x", gen.IMG_SHAPE[1] - 1),
+         "Mismatch [imaging] 'roi size x'"),
+        ("roi size y larger", "imaging:roi size y",
+         _set("imaging:roi size y", gen.IMG_SHAPE[0] * 2),
+         "Mismatch [imaging] 'roi size y'"),
+        ("channel count 3", "fluorescence:channel count",
+         _set("fluorescence:channel count", 3),
+         "channel count inconsistent"),
+        ("laser count 3", "fluorescence:laser count",
+         _set("fluorescence:laser count", 3), "laser count inconsistent"),
+        ("samples per event smaller", "fluorescence:samples per event",
+         _set("fluorescence:samples per event", gen.TRACE_LEN - 1),
+         "wrong number of samples per event"),
+        ("frame rate negative", "imaging:frame rate",
+         _set("imaging:frame rate", -2000.0),
+         "Invalid value for [imaging] 'frame rate'"),
+        ("pixel size 0", "imaging:pixel size",
+         _set("imaging:pixel size", 0.0),
+         "Invalid value for [imaging] 'pixel size'"),
+        ("channel width negative", "setup:channel width",
+         _set("setup:channel width", -20.0),
+         "Invalid value for [setup] 'channel width'"),
+        ("flow rate 0", "setup:flow rate",
+         _set("setup:flow rate", 0.0),
+         "Invalid value for [setup] 'flow rate'"),
+        ("area_um length +2", "len area_um", _resize("area_um", 2),
+         "wrong event count: 'area_um'"),
+        ("image_bg length -2", "len image_bg", _resize("image_bg", -2),
+         "wrong event count: 'image_bg'"),
     ]
     return menu
 
